@@ -259,7 +259,10 @@ def simplify_trace(H):
     used, orphan = el("linearGradient", {"id": "used"}, [stop()]), el("linearGradient", {"id": "orphan"}, [stop()])
     junk = el("rect", {"id": "junk", "width": "1", "height": "1"})
     src_defs = el("defs", {}, [used, junk, orphan])
-    root = el("svg", {"viewBox": "0 0 100 100", "fill": "lime", "stroke-linecap": "round"}, [src_defs, cp, group, cp2])
+    # an opacity group whose only rendered child is one path, with a clipPath written inside it: the clipPath must not count as a child
+    lone = el("path", {"d": "M9,9 L8,8 L7,9 Z", "id": "lone"})
+    thin_group = el("g", {"opacity": "0.5"}, [lone, el("clipPath", {"id": "c3"}, [el("rect", {"width": "1", "height": "1"})])])
+    root = el("svg", {"viewBox": "0 0 100 100", "fill": "lime", "stroke-linecap": "round"}, [src_defs, cp, group, cp2, thin_group])
     svg = SVG(root)
     events = []
     clip_shape = SVGPath(d="M0,0 L5,0 L5,5 Z", clip_rule="evenodd")
@@ -346,6 +349,9 @@ def simplify_trace(H):
     kids = list(root)
     H.prove(len(kids) >= 1 and local(kids[0]) == "defs" and sum(1 for k in root.iterdescendants() if local(k) == "defs") == 1, "simplify.one_master_defs_comes_first")
     H.prove(not any(local(k) in ("clipPath", "g", "rect") for k in root.iterdescendants()), "simplify.clipPath_and_dissolved_group_are_gone", detail=str([local(k) for k in root.iterdescendants()]))
+    lone_out = [k for k in kids if local(k) == "path" and k.attrib.get("d", "").replace(" ", "") == "M9,9L8,8L7,9Z"]
+    H.prove(len(lone_out) == 1 and lone_out[0].attrib.get("opacity") == "0.5", "simplify.clipPath_inside_a_group_does_not_keep_the_group_alive", detail=str([(local(k), dict(k.attrib)) for k in kids]))
+    kids = [k for k in kids if not any(k is x for x in lone_out)]
     paths = [k for k in kids if local(k) == "path"]
     H.prove(len(paths) == n_paths + 1 and kids[1:] == paths, "simplify.shape_replaced_in_place_by_its_paths", detail=str([local(k) for k in kids]))
     for k in paths:
